@@ -1,0 +1,51 @@
+//go:build verif
+
+package midix
+
+// Ghost (specification-only) types for govc. They are never instantiated; the
+// huge arrays stand for mathematical maps from integers.
+
+const ghostInf = 1 << 20
+
+// ghostSubmitted is the history of operations handed to a TrackSetController,
+// in submission order. It is a history variable: the contracts of
+// TrackSetController.Add and Distribute define how it grows.
+type ghostSubmitted struct {
+	N     int                // submissions so far
+	Delta [ghostInf]uint32   // the operation's own delay as submitted
+	Meta  [ghostInf]bool     // addressed to the meta track
+	Fixed [ghostInf]int      // note index it was addressed with otherwise
+	All   [ghostInf]bool     // submitted to every track (Distribute)
+	Func  [ghostInf]OpFunc   // what it does
+}
+
+// ghostWriter is the history of calls made on a Writer. Notes and rests are
+// numbered 0,1,2,...; every control call is recorded at the number of notes
+// and rests that preceded it, i.e. at the instance it takes effect from.
+type ghostWriter struct {
+	NN      int // notes and rests so far
+	IsRest  [ghostInf]bool
+	Value   [ghostInf]float64
+	Vel     [ghostInf]uint8
+	KeysLen [ghostInf]int
+	Keys    [ghostInf][256]uint8
+
+	TempoCnt  [ghostInf]int
+	TempoVal  [ghostInf]int
+	MeterCnt  [ghostInf]int
+	MeterNum  [ghostInf]uint8
+	MeterDen  [ghostInf]uint8
+	KeyCnt    [ghostInf]int
+	KeyKey    [ghostInf]uint8
+	KeyMajor  [ghostInf]bool
+	KeyNum    [ghostInf]uint8
+	KeyFlat   [ghostInf]bool
+	TextCnt   [ghostInf]int
+	TextVal   [ghostInf]string
+	LyricCnt  [ghostInf]int
+	LyricVal  [ghostInf]string
+	MarkerCnt [ghostInf]int
+	MarkerVal [ghostInf]string
+	CloseCnt  int
+	CloseAt   int
+}
